@@ -72,10 +72,16 @@ def artefacts(scratch: str) -> Dict[str, Any]:
     from verif_lib import components
 
     sinks = sorted(f for f in os.listdir(scratch) if f.startswith("out_"))
-    tdir = os.path.join(scratch, "tdir")
-    traces = sorted(os.listdir(tdir)) if os.path.isdir(tdir) else []
-    others = sorted(f for f in os.listdir(scratch) if f.endswith(".jsonl"))
-    return {"sinks": sinks, "traces": traces + others, "log": list(components.LOG)}
+    traces = []
+    for root, dirs, files in os.walk(scratch):
+        rel = os.path.relpath(root, scratch)
+        if rel.split(os.sep)[0] in ("tdir", "traces") or rel == ".":
+            for f in files:
+                if f.endswith(".jsonl") or rel != ".":
+                    traces.append(os.path.normpath(os.path.join(rel, f)))
+        if rel.split(os.sep)[0] in ("tdir", "traces") and not files and not dirs:
+            traces.append(rel + os.sep)  # even an empty trace directory is a trace artefact
+    return {"sinks": sinks, "traces": sorted(traces), "log": list(components.LOG)}
 
 
 DECOY_RS = {"blocks": [{"mode": "by_position", "context": {"value": [77.0], "a": [0.0]}}]}  # must be ignored when --run-space-file is given
@@ -94,8 +100,18 @@ def invoke(cfg_name: str, spec: Optional[dict], raw: Optional[str], flags: List[
         with open(yp, "w") as f:
             f.write(raw)
     elif spec is not None:
-        cfg: Dict[str, Any] = {"extensions": ["verif_lib"], "pipeline": {"nodes": copy.deepcopy(spec["nodes"])},
-                               "trace": {"driver": "jsonl", "output_path": os.path.join(scratch, "tdir")}}
+        tmode = var.get("trace", "dir")
+        cfg: Dict[str, Any] = {"extensions": ["verif_lib"], "pipeline": {"nodes": copy.deepcopy(spec["nodes"])}}
+        if tmode == "dir":
+            cfg["trace"] = {"driver": "jsonl", "output_path": os.path.join(scratch, "tdir")}
+        elif tmode == "file":
+            cfg["trace"] = {"driver": "jsonl", "output_path": os.path.join(scratch, "traces", "t.ser.jsonl")}
+        elif tmode == "relative-file":
+            cfg["trace"] = {"driver": "jsonl", "output_path": "traces/rel.ser.jsonl"}
+        elif tmode == "cli-file":
+            flags += ["--trace.driver", "jsonl", "--trace.output", os.path.join(scratch, "traces", "cli.ser.jsonl"), "--trace.option", "detail=all"]
+        elif tmode == "cli-dir":
+            flags += ["--trace.driver", "jsonl", "--trace.output", os.path.join(scratch, "tdir")]
         if spec["rs"] is not None:
             rs = copy.deepcopy(spec["rs"])
             if dry == "declared":
@@ -175,7 +191,7 @@ def judge(cfg_name: str, spec: Optional[dict], raw: Optional[str], flags: List[s
     res, art = invoke(cfg_name, spec, raw, flags, ctx, sets, cap, scratch, var)
     case = {"config": cfg_name, "flags": flags, "ctx": ctx, "sets": sets, "cap": cap, "var": var}
     if var:
-        cfg_name = f"{cfg_name}[run space {var.get('place', 'top')}, dry run {var.get('dry', 'none')}]"
+        cfg_name = f"{cfg_name}[run space {var.get('place', 'top')}, dry run {var.get('dry', 'none')}, trace {var.get('trace', 'dir')}]"
     out: List[Tuple[str, str, dict]] = []
     executed = bool(art["sinks"] or art["traces"] or art["log"])
 
@@ -273,10 +289,20 @@ def invocations(tier: str):
             for dry in ("none", "declared", "declared-false-then-set"):
                 if (place == "top" and dry == "none") or (place.startswith("file") and dry == "declared-false-then-set"):
                     continue  # the default, covered above; --set edits the YAML, which a --run-space-file block then replaces
-                for flags in ([[]] if tier == "quick" else [[], ["--dry-run"], ["--validate"]]):
-                    for cap in ([None] if tier == "quick" else [None, 1, 1000]):
+                quick_small = tier == "quick" and not (name in ("valid-rs", "rs-fail-at-1") and dry == "none")
+                for flags in ([[]] if quick_small else [[], ["--run-space-dry-run"], ["--dry-run"], ["--validate"]]):
+                    for cap in ([None] if quick_small else [None, 1, 1000]):
                         for ctx in [{k: gen.KEY_VALUES[k] for k in spec["needs"]}] + ([{}] if spec["needs"] else []):
                             yield (name, flags, ctx, [], cap, {"place": place, "dry": dry})
+    # how / where the trace is configured: directory or file path, in the YAML or on the command line
+    for name in ("valid", "valid-rs", "rs-fail-at-1", "rs-cap-exceeded", "rs-length-mismatch", "use-before-create", "unknown-parameter", "type-adjacent"):
+        spec = cfgs[name]
+        for tmode in ("file", "relative-file", "cli-file", "cli-dir"):
+            for flags in ([], ["--dry-run"], ["--validate"], ["--run-space-dry-run"]):
+                ctxs = [{k: gen.KEY_VALUES[k] for k in spec["needs"]}] + ([{}] if spec["needs"] else [])
+                for ctx in ctxs:
+                    for cap in ([None] if spec["rs"] is None or tier == "quick" else [None, 1]):
+                        yield (name, flags, ctx, [], cap, {"trace": tmode})
     for rawname in RAW_FILES:
         for flags in flagsets[:4]:
             yield ("raw:" + rawname, flags, {}, [], None)
